@@ -277,3 +277,353 @@ Proof.
   exfalso. assert (1 <= cntp (fun th => wkp th && negb (exitp th)) (threads s)); [|lia].
   eapply cntp_ge; eauto. unfold wkp. rewrite Hrole, E. reflexivity.
 Qed.
+
+(* ======================================================================================== *)
+(* which threads can always move                                                              *)
+Definition always_enabled (p : pc) : bool :=
+  match p with
+  | EStopStore | EStopPush _ | WLoop | WSteal _ | WTake | WBegin _ | WRun _ _ | WGTake _ _ _ | BCheck | BSweep _ | BTake _ _ => true
+  | _ => false
+  end.
+Ltac enabled_tac Hn :=
+  unfold step, step_ext, step_worker, step_bal, take_push, take_pop; rewrite Hn;
+  repeat match goal with
+         | H : trole _ = _ |- _ => rewrite H
+         | H : tpc _ = _ |- _ => rewrite H
+         end;
+  repeat match goal with |- context [match ?x with _ => _ end] => destruct x end; discriminate.
+
+Lemma always_enabled_ok : forall c s t th, nth_error (threads s) t = Some th ->
+  role_pc_ok (trole th) (tpc th) = true -> always_enabled (tpc th) = true -> step c s t <> None.
+Proof.
+  intros c s t th Hn R A. destruct (trole th) eqn:Er; destruct (tpc th) eqn:Ep; cbn in R, A; try discriminate; enabled_tac Hn.
+Qed.
+Lemma holder_enabled : forall c s t th p it, nth_error (threads s) t = Some th ->
+  role_pc_ok (trole th) (tpc th) = true -> ticket_of (tpc th) = Some (p, it) ->
+  slot_released (gq s) (global_slots c) p = true -> step c s t <> None.
+Proof.
+  intros c s t th p it Hn R Tk Rel. destruct (trole th) eqn:Er; destruct (tpc th) eqn:Ep; cbn in R, Tk; try discriminate;
+    inversion Tk; subst; unfold step, step_ext, step_worker, step_bal; rewrite Hn, Er, Ep, Rel; discriminate.
+Qed.
+Lemma waiter_enabled : forall c s t th q it, nth_error (threads s) t = Some th ->
+  role_pc_ok (trole th) (tpc th) = true -> tpc th = WPop q -> nth_error (slots (gq s)) q = Some (SFull it) -> step c s t <> None.
+Proof.
+  intros c s t th q it Hn R Hp Hs. destruct (trole th) eqn:Er; rewrite Hp in R; cbn in R; try discriminate.
+  unfold step, step_worker, pop_ready. rewrite Hn, Er, Hp, Hs. discriminate.
+Qed.
+
+Definition is_sdone (x : slot) : bool := match x with SDone _ => true | _ => false end.
+Lemma sdone_or_not : forall l : list slot, (forall x, In x l -> is_sdone x = true) \/ exists r x, nth_error l r = Some x /\ is_sdone x = false.
+Proof.
+  induction l as [|y l IH]; [left; intros ? []|]. destruct (is_sdone y) eqn:E.
+  - destruct IH as [IH|(r & x & Hr & Hx)]; [left; intros x [<-|H]; auto | right; exists (S r), x; auto].
+  - right. exists 0, y. auto.
+Qed.
+Lemma all_sdone_count : forall l, (forall x, In x l -> is_sdone x = true) -> cntp sdone_stop l = cnt_stop (map slot_item l).
+Proof.
+  induction l as [|y l IH]; intros H; cbn; auto. unfold cnt_stop in *. cbn.
+  pose proof (H y (or_introl eq_refl)) as Hy. destruct y; try discriminate. cbn.
+  rewrite IH by (intros; apply H; right; auto). destruct (is_stop it); reflexivity.
+Qed.
+
+(* ======================================================================================== *)
+(* stop() cannot get stuck: while a thread is inside stop() some thread can move, provided no pusher is
+   blocked by a full global queue *)
+Definition no_push_blocked (c : config) (s : st) : Prop :=
+  forall t th p it, nth_error (threads s) t = Some th -> ticket_of (tpc th) = Some (p, it) ->
+                    slot_released (gq s) (global_slots c) p = true.
+
+Lemma worker_thread_at : forall c progs s k, Layout c progs s -> k < nworkers c ->
+  exists th, nth_error (threads s) (nex s + k) = Some th /\ trole th = RWorker k.
+Proof.
+  intros c progs s k Hlay Hk. pose proof Hlay as (Hr & Hnx & _).
+  assert (Hrole : nth_error (roles c progs) (nex s + k) = Some (RWorker k)).
+  { rewrite roles_eq, Hnx. rewrite nth_error_app2 by (rewrite repeat_length; lia). rewrite repeat_length.
+    replace (length progs + k - length progs) with k by lia. rewrite nth_error_app1 by (rewrite map_length, seq_length; auto).
+    rewrite nth_error_map. rewrite (nth_error_nth' _ 0) by (rewrite seq_length; auto). rewrite seq_nth by auto. reflexivity. }
+  rewrite <- Hr, nth_error_map in Hrole. destruct (nth_error (threads s) (nex s + k)) as [th|]; [|discriminate].
+  cbn in Hrole. injection Hrole as Hrole. eauto.
+Qed.
+Lemma bal_thread_at : forall c progs s, Layout c progs s -> has_balancer c = true ->
+  exists th, nth_error (threads s) (bal_tid c s) = Some th /\ trole th = RBal.
+Proof.
+  intros c progs s Hlay Hb. pose proof Hlay as (Hr & Hnx & _). unfold bal_tid.
+  assert (Hrole : nth_error (roles c progs) (nex s + nworkers c) = Some RBal).
+  { rewrite roles_eq, Hnx, Hb. rewrite nth_error_app2 by (rewrite repeat_length; lia). rewrite repeat_length.
+    rewrite nth_error_app2 by (rewrite map_length, seq_length; lia). rewrite map_length, seq_length.
+    replace (length progs + nworkers c - length progs - nworkers c) with 0 by lia. reflexivity. }
+  rewrite <- Hr, nth_error_map in Hrole. destruct (nth_error (threads s) (nex s + nworkers c)) as [th|]; [|discriminate].
+  cbn in Hrole. injection Hrole as Hrole. eauto.
+Qed.
+
+Lemma ex_stop_not_stuck : forall c progs s, Reach c progs s -> no_push_blocked c s ->
+  (exists t th, nth_error (threads s) t = Some th /\ stop_pc (tpc th) = true) -> exists t, step c s t <> None.
+Proof.
+  intros c progs s Hr Hnb (ts & ths & Hns & Hsp).
+  pose proof (layout_reach _ _ _ Hr) as Hlay.
+  pose proof (ex_role_pc _ _ _ Hr) as RC.
+  destruct (tpc ths) eqn:Ep; try discriminate.
+  - exists ts. apply (always_enabled_ok _ _ _ _ Hns (RC _ _ Hns)). now rewrite Ep.
+  - (* join of the balance thread *)
+    destruct (ex_joinbal _ _ _ Hr _ _ Hns) as [Hb _]. specialize (Hb Ep).
+    destruct (bal_thread_at _ _ _ Hlay Hb) as (thb & Hnb0 & Hrb).
+    destruct (tpc thb) eqn:Epb; pose proof (RC _ _ Hnb0) as Rb; rewrite Hrb, Epb in Rb; cbn in Rb; try discriminate.
+    + exists (bal_tid c s). apply (always_enabled_ok _ _ _ _ Hnb0 (RC _ _ Hnb0)). now rewrite Epb.
+    + exists (bal_tid c s). apply (always_enabled_ok _ _ _ _ Hnb0 (RC _ _ Hnb0)). now rewrite Epb.
+    + exists (bal_tid c s). apply (always_enabled_ok _ _ _ _ Hnb0 (RC _ _ Hnb0)). now rewrite Epb.
+    + exists (bal_tid c s). eapply (holder_enabled _ _ _ _ _ _ Hnb0 (RC _ _ Hnb0)); [rewrite Epb; reflexivity|].
+      eapply Hnb; eauto. rewrite Epb. reflexivity.
+    + exists ts. pose proof (RC _ _ Hns) as Rs. destruct (trole ths) eqn:Ers; rewrite Ep in Rs; cbn in Rs; try discriminate.
+      unfold step, step_ext. rewrite Hns, Ers, Ep. unfold pc_of. rewrite Hnb0. cbn. rewrite Epb. discriminate.
+  - exfalso. destruct (ex_joinbal _ _ _ Hr _ _ Hns) as [_ Hl]. auto.
+  - exists ts. apply (always_enabled_ok _ _ _ _ Hns (RC _ _ Hns)). now rewrite Ep.
+  - exists ts. eapply (holder_enabled _ _ _ _ _ _ Hns (RC _ _ Hns)); [rewrite Ep; reflexivity|].
+    eapply Hnb; eauto. rewrite Ep. reflexivity.
+  - (* join of worker k *)
+    pose proof (RC _ _ Hns) as Rs. destruct (trole ths) eqn:Ers; rewrite Ep in Rs; cbn in Rs; try discriminate.
+    destruct (Nat.eq_dec (nworkers c) 0) as [H0|H0].
+    { exists ts. unfold step, step_ext. rewrite Hns, Ers, Ep. apply Nat.eqb_eq in H0. rewrite H0. discriminate. }
+    assert (Hk : k < nworkers c) by (destruct (ex_join_index _ _ _ Hr _ _ _ Hns Ep); lia).
+    destruct (worker_thread_at _ _ _ _ Hlay Hk) as (thk & Hnk & Hrk).
+    pose proof (RC _ _ Hnk) as Rk. rewrite Hrk in Rk.
+    destruct (tpc thk) eqn:Epk; cbn in Rk; try discriminate;
+      try (exists (nex s + k); apply (always_enabled_ok _ _ _ _ Hnk (RC _ _ Hnk)); rewrite Epk; reflexivity).
+    + (* waiting on the global queue *)
+      destruct (nth_error (slots (gq s)) q) as [[x|x|x]|] eqn:Eq.
+      * destruct (ex_pend_has_holder _ _ _ Hr _ _ Eq) as (t1 & th1 & it1 & Hn1 & Htk1).
+        exists t1. eapply holder_enabled; eauto.
+      * exists (nex s + k). eapply waiter_enabled; eauto.
+      * exfalso. eapply (w_notdone _ (ex_waiters _ _ _ Hr)); eauto.
+      * (* ticket beyond the written slots *)
+        pose proof (ex_tickets _ _ _ Hr) as TK.
+        assert (Hlen : length (slots (gq s)) <= q) by (apply nth_error_None; auto).
+        pose proof (tk_wait _ TK _ _ _ Hnk Epk) as Hq.
+        destruct (sdone_or_not (slots (gq s))) as [Hall|(r & x & Hrx & Hx)].
+        -- exfalso.
+           assert (Hm : (Z.of_nat (nworkers c) <= Z.of_nat (cnt_stop (items (gq s))))%Z).
+           { eapply (ex_markers _ _ _ Hr _ _ _ Hns). rewrite Ep. reflexivity. }
+           pose proof (ex_exit_count _ _ _ Hr) as Hc. rewrite (all_sdone_count _ Hall) in Hc. fold (items (gq s)) in Hc.
+           assert (Hex : tpc thk = WExit) by (eapply all_workers_exited; eauto; lia). congruence.
+        -- pose proof (nth_error_lt _ _ _ _ Hrx) as Hrl.
+           destruct x as [y|y|y]; try discriminate.
+           ++ destruct (ex_pend_has_holder _ _ _ Hr _ _ Hrx) as (t1 & th1 & it1 & Hn1 & Htk1).
+              exists t1. eapply holder_enabled; eauto.
+           ++ destruct (tk_served _ TK r) as [(it0 & Hd)|(t1 & th1 & Hn1 & Hp1)]; [lia|congruence|].
+              exists t1. eapply waiter_enabled; eauto.
+    + exists (nex s + k). eapply (holder_enabled _ _ _ _ _ _ Hnk (RC _ _ Hnk)); [rewrite Epk; reflexivity|].
+      eapply Hnb; eauto. rewrite Epk. reflexivity.
+    + exists ts. unfold step, step_ext. rewrite Hns, Ers, Ep. apply Nat.eqb_neq in H0. rewrite H0.
+      unfold pc_of, worker_tid. rewrite Hnk. cbn. rewrite Epk. unfold stop_join_next. destruct (S k <? nworkers c); discriminate.
+Qed.
+
+(* ======================================================================================== *)
+(* the global queue cannot fill: a potential that bounds the number of push tickets           *)
+Definition opw (n : nat) (o : op) : nat := match o with OSubmit _ | OWake => 1 | OStop => n | OJoinExt => 0 end.
+Definition ops_w (n : nat) (l : list op) : nat := list_sum (map (opw n) l).
+Definition pend_w (n : nat) (th : thread) : nat :=
+  ops_w n (skipn (if is_idle (tpc th) then opi th else S (opi th)) (prog th)).
+Definition pcw (n : nat) (p : pc) : nat :=
+  match p with
+  | EStopStore | EStopJoinBal => n
+  | EStopPush i => 1 + Z.to_nat (Z.of_nat n - i - 1)
+  | EStopFill i _ => Z.to_nat (Z.of_nat n - i - 1)
+  | WRun _ rest => 2 * length rest
+  | WGTake _ rest _ => 2 * length rest + 1
+  | WFill _ rest _ _ => 2 * length rest
+  | BTake _ _ => 1
+  | _ => 0
+  end.
+Definition thw (n : nat) (th : thread) : nat := pend_w n th + pcw n (tpc th).
+Fixpoint wsum (n : nat) (l : list thread) : nat := match l with [] => 0 | th :: r => thw n th + wsum n r end.
+Definition is_full (x : slot) : bool := match x with SFull _ => true | _ => false end.
+Fixpoint lwsum (l : list queue) : nat := match l with [] => 0 | q :: r => cntp is_full (slots q) + lwsum r end.
+Definition restw (s : st) : nat := length (slots (gq s)) + lwsum (lqs s).
+
+Lemma wsum_set_nth : forall n l t x y, nth_error l t = Some x -> wsum n (set_nth t y l) + thw n x = wsum n l + thw n y.
+Proof.
+  induction l as [|z l IH]; intros [|t] x y H; cbn in *; try discriminate.
+  - injection H as ->. lia.
+  - specialize (IH _ _ y H). lia.
+Qed.
+Lemma lwsum_set_nth : forall l k x y, nth_error l k = Some x ->
+  lwsum (set_nth k y l) + cntp is_full (slots x) = lwsum l + cntp is_full (slots y).
+Proof.
+  induction l as [|z l IH]; intros [|k] x y H; cbn in *; try discriminate.
+  - injection H as ->. lia.
+  - specialize (IH _ _ y H). lia.
+Qed.
+Lemma lw_try_pop : forall s k it q', try_pop (lq_of s k) = Some (it, q') -> lwsum (set_nth k q' (lqs s)) + 1 = lwsum (lqs s).
+Proof.
+  intros s k it q' H. destruct (lt_dec k (length (lqs s))) as [Hlt|Hge].
+  - pose proof (lwsum_set_nth _ _ _ q' (lq_of_nth_error _ _ Hlt)) as A.
+    destruct (try_pop_slots _ _ _ H) as [Hf E]. rewrite E in A.
+    pose proof (cntp_set_nth _ is_full _ _ _ (SDone it) Hf) as B. cbn in B. lia.
+  - exfalso. unfold lq_of in H. rewrite nth_overflow in H by lia. discriminate.
+Qed.
+Lemma lw_push : forall s w id, w < length (lqs s) ->
+  lwsum (set_nth w (local_push (lq_of s w) (IFun id)) (lqs s)) = lwsum (lqs s) + 1.
+Proof.
+  intros s w id Hlt. pose proof (lwsum_set_nth _ _ _ (local_push (lq_of s w) (IFun id)) (lq_of_nth_error _ _ Hlt)) as A.
+  cbn [local_push slots] in A. rewrite cntp_app in A. cbn in A. lia.
+Qed.
+Lemma fill_length : forall g p, length (slots (fill g p)) = length (slots g).
+Proof. intros g p. destruct (fill_slots g p) as [->|(y & _ & ->)]; auto. apply set_nth_length. Qed.
+Lemma pcw_dispatch : forall n it, pcw n (dispatch it) = 0.
+Proof. intros n it. unfold dispatch. destruct (_ =? _)%Z; [destruct it; reflexivity|]. destruct (_ =? _)%Z; reflexivity. Qed.
+
+Lemma step_weight : forall c s t s',
+  (forall t th w, nth_error (threads s) t = Some th -> trole th = RWorker w -> w < length (lqs s)) ->
+  step c s t = Some s' ->
+  exists th th', nth_error (threads s) t = Some th /\ threads s' = set_nth t th' (threads s) /\
+   ((started s' = started s /\ thw (nworkers c) th' + restw s' <= thw (nworkers c) th + restw s) \/
+    (exists id w, tpc th = WBegin id /\ started s' = started s ++ [(id, w)] /\
+        thw (nworkers c) th' + restw s' <= thw (nworkers c) th + restw s + 2 * length (body_of c id))).
+Proof.
+  intros c s t s' Hw H. destr_step H; kill_gen; simp_st;
+    rewrite ?stop_loop_eq; unfold after_steal, after_sweep;
+    repeat match goal with |- context [if ?b then _ else _] => destruct b eqn:? end;
+    eexists; eexists;
+    (split; [reflexivity|]; split; [reflexivity|]);
+    (first [ left; split; [reflexivity|] | right; eexists; eexists; split; [eassumption|]; split; [reflexivity|] ]);
+    unfold thw, pend_w, restw, ops_w; simp_st;
+    cbn [tpc opi prog goto next_op trole gq lqs];
+    repeat match goal with H : tpc _ = _ |- _ => rewrite H end;
+    cbn [is_idle pcw];
+    try match goal with H : nth_error (prog _) (opi _) = Some _ |- _ => rewrite (skipn_nth _ _ _ _ H) end;
+    cbn [map opw slots]; unfold list_sum; cbn [fold_right];
+    rewrite ?fill_length, ?pcw_dispatch, ?is_idle_dispatch, ?app_length;
+    try match goal with E : pop_ready _ _ = Some _ |- _ => let X := fresh in pose proof (pop_ready_inv _ _ _ _ E) as (_ & X & _); rewrite X, set_nth_length end;
+    try match goal with E : try_pop (lq_of _ _) = Some _ |- _ => pose proof (lw_try_pop _ _ _ _ E) end;
+    try (rewrite lw_push by (eapply Hw; eauto));
+    repeat match goal with
+           | H : stop_push_more _ _ = false |- _ => rewrite gen_push_more in H; apply Z.ltb_ge in H
+           | H : stop_push_more _ _ = true |- _ => rewrite gen_push_more in H; apply Z.ltb_lt in H
+           end; rewrite ?gen_first_marker in *;
+    cbn [length]; try lia.
+Qed.
+
+Lemma fm_change_len : forall (l : list nat) (f g : nat -> list nat) id0, NoDup l ->
+  (forall p, p <> id0 -> g p = f p) -> g id0 = [] ->
+  (In id0 l -> length (flat_map g l) + length (f id0) = length (flat_map f l)) /\
+  (~ In id0 l -> length (flat_map g l) = length (flat_map f l)).
+Proof.
+  induction l as [|a l IH]; intros f g id0 Hnd Hne H0; cbn; [split; [tauto|auto]|].
+  inversion Hnd as [|? ? H1 H2]; subst. destruct (IH f g id0 H2 Hne H0) as [IH1 IH2]. rewrite !app_length.
+  destruct (Nat.eq_dec a id0) as [->|Ha].
+  - split; [|intros H; exfalso; apply H; auto]. intros _. rewrite H0. cbn. rewrite (IH2 H1). lia.
+  - rewrite (Hne _ Ha). split.
+    + intros [H|H]; [congruence|]. specialize (IH1 H). lia.
+    + intros H. rewrite IH2; auto.
+Qed.
+Lemma len_tbl_start : forall c L id0, ~ In id0 L -> length (tbl c (L ++ [id0])) + length (body_of c id0) = length (tbl c L).
+Proof.
+  intros c L id0 Hni. unfold tbl.
+  destruct (fm_change_len (seq 0 (length (bodies c))) (fun p => if memb p L then [] else nth p (bodies c) [])
+              (fun p => if memb p (L ++ [id0]) then [] else nth p (bodies c) []) id0 (seq_NoDup _ _)) as [A B].
+  - intros p Hp. unfold memb. rewrite existsb_app. cbn. apply Nat.eqb_neq in Hp. rewrite Hp. now rewrite !orb_false_r.
+  - unfold memb. rewrite existsb_app. cbn. rewrite Nat.eqb_refl. now rewrite orb_true_r.
+  - cbn beta in A. rewrite (memb_false _ _ Hni) in A. unfold body_of.
+    destruct (lt_dec id0 (length (bodies c))) as [Hlt|Hge].
+    + apply A. apply in_seq. lia.
+    + rewrite nth_overflow by lia. cbn. rewrite B; [lia|]. rewrite in_seq. lia.
+Qed.
+Lemma nodup_snoc_inv : forall (l : list nat) a, NoDup (l ++ [a]) -> ~ In a l.
+Proof. intros l a H Hin. apply NoDup_remove_2 in H. apply H. rewrite app_nil_r. exact Hin. Qed.
+
+Definition phi (c : config) (s : st) : nat :=
+  wsum (nworkers c) (threads s) + restw s + 2 * length (tbl c (map fst (started s))).
+(* how many push tickets the programs can ever take: one per submit and wakeup, one marker per worker and stop(),
+   and two per spawned task (its push by the parent and its possible move by the balance thread) *)
+Definition push_bound (c : config) (progs : list (list op)) : nat :=
+  list_sum (map (ops_w (nworkers c)) progs) + 2 * length (concat (bodies c)).
+
+Lemma phi_init : forall c progs, phi c (init c progs) = push_bound c progs.
+Proof.
+  intros c progs. unfold phi, push_bound, restw. cbn [init threads gq lqs started map slots empty_queue length].
+  rewrite tbl_init.
+  assert (A : lwsum (repeat empty_queue (nworkers c)) = 0) by (induction (nworkers c); cbn; auto).
+  assert (B : forall l l2, wsum (nworkers c) (l ++ l2) = wsum (nworkers c) l + wsum (nworkers c) l2).
+  { induction l; intros; cbn; auto. rewrite IHl. lia. }
+  assert (C : wsum (nworkers c) (map mk_ext progs) = list_sum (map (ops_w (nworkers c)) progs)).
+  { clear. induction progs as [|p progs IH]; [reflexivity|]. cbn [map wsum]. rewrite IH. unfold thw, pend_w, ops_w, list_sum. cbn. lia. }
+  assert (D : forall l, wsum (nworkers c) (map mk_worker l) = 0) by (induction l; cbn; auto).
+  assert (E : wsum (nworkers c) (if has_balancer c then [mk_bal] else []) = 0) by (destruct (has_balancer c); reflexivity).
+  rewrite A, !B, C, D, E. lia.
+Qed.
+
+Lemma ex_phi : forall c progs, NoDup (submit_ids progs ++ concat (bodies c)) ->
+  forall s, Reach c progs s -> phi c s <= push_bound c progs.
+Proof.
+  intros c progs Hwf.
+  assert (Hwf' : forall x, total c (init c progs) x <= 1) by (intros x; rewrite total_init; apply nodup_cnt; exact Hwf).
+  apply (reach_ind c progs (fun s => phi c s <= push_bound c progs)).
+  - rewrite phi_init. lia.
+  - intros s t s' Hr IH Hs. pose proof (layout_reach _ _ _ Hr) as Hlay.
+    assert (Hw : forall t th w, nth_error (threads s) t = Some th -> trole th = RWorker w -> w < length (lqs s)).
+    { intros t0 th0 w Hn0 Hrole. pose proof (role_at _ _ _ _ _ Hlay Hn0) as R. rewrite Hrole in R.
+      destruct Hlay as (_ & _ & ->). tauto. }
+    destruct (step_weight _ _ _ _ Hw Hs) as (th & th' & Hn & Ht & Hcase).
+    pose proof (wsum_set_nth (nworkers c) _ _ _ th' Hn) as Hsum. rewrite <- Ht in Hsum.
+    unfold phi in *. destruct Hcase as [[Hst Hle]|(id & w & Hpc & Hst & Hle)].
+    + rewrite Hst. lia.
+    + assert (Hr' : Reach c progs s') by (eapply reachable_step; eauto).
+      pose proof (ci_nodup _ _ _ (ex_counts _ _ Hwf' _ Hr')) as Hnd. rewrite Hst, map_app in Hnd. cbn [map fst] in Hnd.
+      pose proof (len_tbl_start c _ _ (nodup_snoc_inv _ _ Hnd)). rewrite Hst, map_app. cbn [map fst]. lia.
+Qed.
+
+(* the usage rule that excludes the self-blocking case: every task id is written at one place and the global queue
+   (absl::bit_ceil(2 * global_capacity) slots) has room for every push ticket the programs can ever take *)
+Definition queue_cannot_fill (c : config) (progs : list (list op)) : Prop :=
+  NoDup (submit_ids progs ++ concat (bodies c)) /\ push_bound c progs <= global_slots c.
+
+Lemma ex_no_push_blocked : forall c progs s, queue_cannot_fill c progs -> Reach c progs s -> no_push_blocked c s.
+Proof.
+  intros c progs s [Hwf Hb] Hr t th p it Hn Htk.
+  pose proof (a_tk _ (ex_accepted _ _ _ Hr) _ _ _ _ Hn Htk) as Hit. apply nth_error_lt in Hit.
+  unfold items in Hit. rewrite map_length in Hit.
+  pose proof (ex_phi _ _ Hwf _ Hr) as Hphi. unfold phi, restw in Hphi.
+  unfold slot_released. assert (Hlt : (p <? global_slots c) = true) by (apply Nat.ltb_lt; lia). now rewrite Hlt.
+Qed.
+
+Theorem ex_stop_progress : forall c progs s, queue_cannot_fill c progs -> Reach c progs s ->
+  (exists t th, nth_error (threads s) t = Some th /\ stop_pc (tpc th) = true) -> exists t, step c s t <> None.
+Proof. intros c progs s Hu Hr. apply (ex_stop_not_stuck _ _ _ Hr). eapply ex_no_push_blocked; eauto. Qed.
+
+(* ======================================================================================== *)
+(* no reachable deadlock                                                                      *)
+Definition op_at (th : thread) : option op := nth_error (prog th) (opi th).
+Definition stop2 (p : pc) : bool :=
+  match p with EStopJoinBal | EStopJoinBalLate | EStopPush _ | EStopFill _ _ | EStopJoin _ => true | _ => false end.
+Lemma stop2_dispatch : forall it, stop2 (dispatch it) = false.
+Proof. intros it. unfold dispatch. destruct (_ =? _)%Z; [destruct it; reflexivity|]. destruct (_ =? _)%Z; reflexivity. Qed.
+Definition fill_pc (p : pc) : bool := match p with EFill _ _ => true | _ => false end.
+Lemma fill_pc_dispatch : forall it, fill_pc (dispatch it) = false.
+Proof. intros it. unfold dispatch. destruct (_ =? _)%Z; [destruct it; reflexivity|]. destruct (_ =? _)%Z; reflexivity. Qed.
+
+Lemma step_ops : forall c s t s', step c s t = Some s' ->
+  exists th th', nth_error (threads s) t = Some th /\ threads s' = set_nth t th' (threads s) /\
+    prog th' = prog th /\
+    (fill_pc (tpc th') = true -> opi th' = opi th /\ (fill_pc (tpc th) = true \/ op_at th <> Some OStop)) /\
+    (opi th' = opi th \/ (opi th' = S (opi th) /\
+        (op_at th <> Some OStop \/ running s = false \/ stop2 (tpc th) = true \/ fill_pc (tpc th) = true))) /\
+    (running s' = running s \/ (running s' = false /\ tpc th = EStopStore)) /\
+    (stop2 (tpc th) = true -> stop2 (tpc th') = true \/ stop_returned s' = true) /\
+    (tpc th = EStopStore -> stop2 (tpc th') = true /\ running s' = false) /\
+    (stop_returned s = true -> stop_returned s' = true) /\
+    (stop2 (tpc th') = true -> stop2 (tpc th) = true \/ tpc th = EStopStore).
+Proof.
+  intros c s t s' H. destr_step H; kill_gen; simp_st;
+    rewrite ?stop_loop_eq; unfold after_steal, after_sweep;
+    repeat match goal with |- context [if ?b then _ else _] => destruct b eqn:? end;
+    eexists; eexists; (split; [reflexivity|]; split; [reflexivity|]);
+    unfold op_at; cbn [tpc trole prog opi goto next_op running];
+    repeat match goal with H : tpc _ = _ |- _ => rewrite H end;
+    repeat match goal with H : nth_error (prog _) (opi _) = Some _ |- _ => rewrite H end;
+    rewrite ?stop2_dispatch, ?fill_pc_dispatch; cbn [stop2 fill_pc];
+    repeat split; intros; try discriminate; auto;
+    try (right; split; [reflexivity|]); auto 6;
+    try (left; discriminate);
+    try (right; left; discriminate).
+  all: try (right; discriminate).
+  all: right; left; destruct (running s); [discriminate|reflexivity].
+Qed.
